@@ -32,11 +32,17 @@ func init() {
 			{ID: "C08-R7", Title: "conversions return fresh objects or immutable singletons", Floor: 20, Run: c08r7},
 			{ID: "C08-R8", Title: "converters keep no scratch state between conversions (shared with C09-R7)", Floor: 5, Run: cachedObjectsImmutable},
 			{ID: "C08-R9", Title: "the hand-back helper converts unless assignable or inconvertible", Floor: 1, Run: conversionHelperConverts},
-			{ID: "C08-R10", Title: "integers handed back to Go do not pass through float64", Floor: 3, Run: intNotThroughFloat},
+			{ID: "C08-R10", Title: "integers handed back to Go do not pass through float64", Floor: 1, Run: intNotThroughFloat},
 			{ID: "C08-R11", Title: "run-time filled converter tables are consulted only as memos", Floor: 2, Run: memoTablesAreOnlyMemos},
 			{ID: "C08-R12", Title: "objects registered before they are complete are not read by what the constructor calls", Floor: 1, Run: publishedBeforeComplete},
 			{ID: "C08-R13", Title: "results of reflect.Value.Interface() are not asserted blindly", Floor: 1, Run: reflectedValuesNotAssertedBlindly},
 			{ID: "C08-R14", Title: "reflect.TypeOf of a handed-in value is guarded against nil", Floor: 1, Run: typeOfGuardedAgainstNil},
+			{ID: "C08-R15", Title: "converters narrow numbers only under a range test", Floor: 10, Run: converterNarrowingIsRangeChecked},
+			{ID: "C08-R16", Title: "From methods test a nil interface before asserting it", Floor: 1, Run: converterInterfaceAssertionsGuardNil},
+			{ID: "C08-R17", Title: "reflective method calls pass exactly the script's arguments", Floor: 2, Run: proxyCallPassesExactlyTheArguments},
+			{ID: "C08-R18", Title: "array converters compare the list length with the array length", Floor: 1, Run: arraysRejectLongerLists},
+			{ID: "C08-R19", Title: "proxies are not built on nil pointers", Floor: 1, Run: proxiesAreNotBuiltOnNilPointers},
+			{ID: "C08-R20", Title: "structs in Go slices are proxied in place", Floor: 1, Run: sliceElementsAreProxiedInPlace},
 		},
 	})
 }
